@@ -51,6 +51,7 @@ def max_flow[Node](
     for u in graph:
         for v, cap, *_ in graph[u]:
             capacity[u][v] += cap
+            capacity[v][u] += 0  # residual arc v -> u: lets an augmenting path cancel flow sent over u -> v
 
     flow = defaultdict(lambda: defaultdict(int))
     total_flow = 0
